@@ -1,4 +1,5 @@
 import TypVerif.Gen.LockDiscipline
+import TypVerif.Gen.PubSubCalls
 /-
 C10, tie 4B: the lock discipline of `chans/pubsub.go` is REGENERATED from the source on every run: every access to the subscriber
 list `o.subs` through the method receiver lies in a region where `o.mutex` is held (read- or write-locked), and the helper
@@ -11,5 +12,31 @@ namespace C10
 
 theorem gen_subs_under_lock :
     Gen.LockDiscipline.pubsubViolations = [] ∧ 0 < Gen.LockDiscipline.pubsubGuardedAccesses := ⟨rfl, by decide⟩
+
+/-- **The synchronisation skeleton of every method of `pubsub.go`**, regenerated from the source on every run — lock calls, goroutine starts,
+deferred calls, WaitGroup calls, sends and closes in source order — is the task structure of `Model/PubSub.lean`:
+`Pub`/`PubSlice` take the read lock, start one `sendAsync` goroutine per (event, subscriber) and release it (`pubStart → pubRet` + `asyncStart` tasks);
+`sendAsync` takes the read lock itself, re-checks `subIndex`, sends, releases on return (`asyncStart → asyncSend → done`);
+`PubWait`/`PubSliceWait` add to a WaitGroup under the read lock, start `sendWaitGroup` goroutines (send, `Done`) and `Wait` before releasing (`waitWg`, `wgSend`);
+`PubSync`/`PubSliceSync` send under the read lock (`syncLoop`); `send` is `SendTimeout` then the timeout callback;
+`Sub`/`SubBuf`/`Unsub`/`UnsubAll` work under the write lock and `close` there.  A method that re-takes a lock, sends outside it, or drops the re-check
+changes this list. -/
+theorem gen_methods_are_the_models :
+    Gen.PubSubCalls.methods =
+      [("PubSub.Pub", ["o.mutex.RLock", "go o.sendAsync", "o.mutex.RUnlock"]),
+       ("PubSub.PubSlice", ["o.mutex.RLock", "go o.sendAsync", "o.mutex.RUnlock"]),
+       ("PubSub.PubWait", ["o.mutex.RLock", "wg.Add", "len", "go o.sendWaitGroup", "wg.Wait", "o.mutex.RUnlock"]),
+       ("PubSub.PubSliceWait", ["o.mutex.RLock", "wg.Add", "len", "len", "go o.sendWaitGroup", "wg.Wait", "o.mutex.RUnlock"]),
+       ("PubSub.PubSync", ["o.mutex.RLock", "o.send", "o.mutex.RUnlock"]),
+       ("PubSub.PubSliceSync", ["o.mutex.RLock", "o.send", "o.mutex.RUnlock"]),
+       ("PubSub.send", ["SendTimeout", "onTimeout"]),
+       ("PubSub.sendAsync", ["o.mutex.RLock", "defer o.mutex.RUnlock", "o.subIndex", "o.send"]),
+       ("PubSub.sendWaitGroup", ["o.send", "wg.Done"]),
+       ("PubSub.WithOnly", ["o.mutex.RLock", "append", "o.mutex.RUnlock"]),
+       ("PubSub.Sub", ["o.mutex.Lock", "make", "append", "o.mutex.Unlock"]),
+       ("PubSub.SubBuf", ["o.mutex.Lock", "make", "append", "o.mutex.Unlock"]),
+       ("PubSub.Unsub", ["o.mutex.Lock", "defer o.mutex.Unlock", "o.subIndex", "close", "append"]),
+       ("PubSub.UnsubAll", ["o.mutex.Lock", "close", "o.mutex.Unlock"]),
+       ("PubSub.subIndex", [])] := rfl
 
 end C10
